@@ -93,11 +93,16 @@ Proof.
   rewrite E. rewrite (Fm (with_ts s fresh_t) l ext rest Hl Hr Hne). cbn [res post w with_src with_ts ts src]. reflexivity.
 Qed.
 
+Ltac fp_prim := apply fp_state; [intros s0 x0; reflexivity|intros s0; split; reflexivity].
 Theorem fp_checkOnce geom LF lvl p : FP (checkOnce geom LF lvl p).
 Proof.
-  apply (P_checkOnce (@FP)); intros;
-    try (apply fp_state; [intros s0 x0; reflexivity|intros s0; split; reflexivity]).
+  apply (P_checkOnce (@FP)); intros; try fp_prim.
   - apply fp_bind; assumption.
+  - apply fp_state; [intros s0 x0|intros s0]; unfold signal; destruct k; try split; reflexivity.
+  - apply fp_state; [intros s0 x0|intros s0]; unfold context_call; cbn [with_src ts];
+      (destruct (ctx (ts s0)); [|destruct (cleaning (ts s0))]); try split; reflexivity.
+  - apply fp_state; [intros s0 x0|intros s0]; unfold pop_cleanup; cbn [with_src ts];
+      destruct (cleanups (ts s0)) as [|[i c] r]; try split; reflexivity.
   - apply fp_state.
     + intros s0 x0. unfold failOnError. cbn [with_src ts]. destruct (failed (ts s0)); reflexivity.
     + intros s0. unfold failOnError. destruct (failed (ts s0)); split; reflexivity.
